@@ -242,12 +242,12 @@ _FUNCS = [_P + 'supernet.py::SuperNet.__init__', _P + 'supernet.py::SuperNet.exp
           _P + 'graph.py::link_combiners_to_branches', _P + 'graph.py::export_graph', _P + 'nn/module.py::SuperNetModule.forward',
           'plinio/graph/annotation.py::clean_up_propagated_shapes', 'plinio/graph/inspection.py::named_leaf_modules']
 HARNESSES = [
-    dict(name='whole-supernet-cost', fn='h_cost_vs_exported', property=['C06'], functions=_FUNCS + [_P + 'supernet.py::SuperNet._get_single_cost', _P + 'nn/combiner.py::SuperNetCombiner.get_cost'],
+    dict(name='whole-supernet-cost', bounded='enumerated architectures (contracts/whole_supernet.py NETS); coefficients, weights, statistics, inputs symbolic', fn='h_cost_vs_exported', property=['C06'], functions=_FUNCS + [_P + 'supernet.py::SuperNet._get_single_cost', _P + 'nn/combiner.py::SuperNetCombiner.get_cost'],
          quick=[dict(net=n) for n in NETS], thorough=[dict(net=n) for n in NETS], timeout=120),
-    dict(name='whole-supernet-import', fn='h_import', property=['C07'], functions=_FUNCS,
+    dict(name='whole-supernet-import', bounded='enumerated architectures (contracts/whole_supernet.py NETS); coefficients, weights, statistics, inputs symbolic', fn='h_import', property=['C07'], functions=_FUNCS,
          quick=[dict(net=n, training=t) for n, t in (('one-block', True), ('twice', True), ('two-blocks', False))],
          thorough=[dict(net=n, training=t) for n in NETS for t in _B], timeout=120),
-    dict(name='whole-supernet-export', fn='h_export', property=['C03', 'C18'], functions=_FUNCS,
+    dict(name='whole-supernet-export', bounded='enumerated architectures (contracts/whole_supernet.py NETS); coefficients, weights, statistics, inputs symbolic', fn='h_export', property=['C03', 'C18'], functions=_FUNCS,
          quick=[dict(net=n, training=t) for n, t in (('one-block', True), ('twice', True), ('two-blocks', False), ('one-block', False), ('user-blocks', False))],
          thorough=[dict(net=n, training=t) for n in NETS for t in _B], timeout=120),
 ]
